@@ -62,13 +62,16 @@ LeafIds(t) == {n.id : n \in {m \in Nodes(t) : m.k = "leaf"}}
 ZeroBag(ids) == [i \in ids |-> 0]
 AddBag(x, y) == [i \in DOMAIN x |-> x[i] + y[i]]
 
-RECURSIVE CostG(_, _)
-CostG(t, ids) ==
+\* lk: the kind of the leaves' payloads - "lazy" (a plain RowIterable) or "cmat" (a
+\* MaterializedRowIterable that is not a RowSequence: materialized() returns it as it is,
+\* sliced() is the lazy base-class one, conversions to a sequence / mapping iterate it)
+RECURSIVE CostG(_, _, _)
+CostG(t, ids, lk) ==
     IF MaxR(t) = 0 \/ JoinIdentity(t) THEN [ex |-> ZeroBag(ids), it |-> ZeroBag(ids), kind |-> "seq"]
     ELSE CASE t.k = "leaf" ->
-                [ex |-> ZeroBag(ids), it |-> [i \in ids |-> IF i = t.id THEN 1 ELSE 0], kind |-> "lazy"]
+                [ex |-> ZeroBag(ids), it |-> [i \in ids |-> IF i = t.id THEN 1 ELSE 0], kind |-> lk]
            [] t.k = "un" ->
-                LET c == CostG(t.t, ids) IN
+                LET c == CostG(t.t, ids, lk) IN
                 (CASE t.op.o \in {"calc", "proj", "sel"} -> [c EXCEPT !.kind = "lazy"]
                   [] t.op.o = "slice" ->
                         IF c.kind = "seq" THEN [ex |-> c.ex, it |-> ZeroBag(ids), kind |-> "seq"]
@@ -80,14 +83,15 @@ CostG(t, ids) ==
                   [] t.op.o = "sort" ->
                         [ex |-> AddBag(c.ex, c.it), it |-> ZeroBag(ids), kind |-> "seq"])
            [] t.k = "bin" ->
-                LET l == CostG(t.l, ids)  r == CostG(t.r, ids) IN
+                LET l == CostG(t.l, ids, lk)  r == CostG(t.r, ids, lk) IN
                 [ex |-> AddBag(l.ex, r.ex), it |-> AddBag(l.it, r.it), kind |-> "lazy"]
            [] t.k = "mat" ->
-                LET cm == CostG(t.t, ids) IN
-                IF cm.kind \in {"seq", "map"} THEN cm
+                LET cm == CostG(t.t, ids, lk) IN
+                IF cm.kind \in {"seq", "map", "cmat"} THEN cm
                 ELSE [ex |-> AddBag(cm.ex, cm.it), it |-> ZeroBag(ids), kind |-> "seq"]
-           [] t.k = "xfer" -> CostG(t.t, ids)
-Cost(t) == CostG(t, LeafIds(t))
+           [] t.k = "xfer" -> CostG(t.t, ids, lk)
+Cost(t) == CostG(t, LeafIds(t), "lazy")
+CostM(t) == CostG(t, LeafIds(t), "cmat")
 
 \* the operation set for which C18 promises full laziness
 RECURSIVE LazyOnly(_)
